@@ -16,7 +16,8 @@ Import ListNotations.
 Inductive site :=
 | SOld                 (* an *Exception made before the chain started (kept by the embedder) *)
 | SAt (d : nat)        (* captured by handleThrow/_throw.exec while frame d was running *)
-| SCreated.            (* the stack stored in the error object itself (errorObject.stack, set at creation) *)
+| SCreated             (* the stack stored in the error object itself (errorObject.stack, set at creation) *)
+| SEmpty.              (* no frames: exceptionFromValue took the empty (non-nil) stack of a host-built error object *)
 
 (* Go errors.  A Go error value is a stack of wrapping layers over a base error:
    LWrap  = fmt.Errorf("...%w", inner)      has Unwrap() error
@@ -25,7 +26,10 @@ Inductive elayer := LWrap | LJoin (sibs : list N).
 
 Inductive value :=
 | VPrim (p : N)                       (* primitive, by content code *)
-| VObj (cls : N) (id : N)             (* object: cls 0 = plain, >= 1 = Error (sub)class instance; id = identity *)
+| VObj (cls : N) (id : N)             (* object: cls 0 = plain, 1..99 = Error (sub)class instance made while script or a
+                                         native call was running (its errorObject.stack has frames), 100+c = instance of
+                                         Error class c built by the HOST while nothing was executing (Runtime.NewTypeError,
+                                         Runtime.New(Error)): its recorded stack is empty; id = identity *)
 | VGoErr (id : N) (e : gerr)          (* GoError object whose "value" property holds the Go error e *)
 with gerr :=
 | GErr (ls : list elayer) (b : ebase)
@@ -88,15 +92,36 @@ Definition pv_of_err (e : gerr) : panicval :=
 
 Inductive signal := SNormal | SPanic (p : panicval).
 
+(* an Error object whose errorObject.stack has frames (recorded at creation).  A GoError with identity 0 is the
+   payload built by the embedder with Runtime.NewGoError before anything ran: nothing recorded *)
 Definition is_errobj (v : value) : bool :=
-  match v with VPrim _ => false | VObj cls _ => negb (N.eqb cls 0) | VGoErr _ _ => true end.
+  match v with
+  | VPrim _ => false
+  | VObj cls _ => negb (N.eqb cls 0) && N.ltb cls 100
+  | VGoErr id _ => negb (N.eqb id 0)
+  end.
 
+(* an Error object built by the host while the call stack was empty: empty but non-nil recorded stack *)
+Definition is_hostbuilt (v : value) : bool :=
+  match v with
+  | VPrim _ => false
+  | VObj cls _ => N.leb 100 cls
+  | VGoErr id _ => N.eqb id 0
+  end.
+
+(* _throw.exec (a script throw statement): the recorded stack is used only if it has frames (len(e.stack) > 0),
+   otherwise the stack is captured at the throw site *)
 Definition stack_of (d : nat) (v : value) : site := if is_errobj v then SCreated else SAt d.
+
+(* exceptionFromValue (a Go panic with a Value): the recorded stack of an Error object is taken as it is, even
+   when empty; only a nil stack is re-captured *)
+Definition panic_stack_of (d : nat) (v : value) : site :=
+  if is_errobj v then SCreated else if is_hostbuilt v then SEmpty else SAt d.
 
 (* vm.exceptionFromValue at frame d: None = "not a JS exception" (uncatchable and foreign alike) *)
 Definition exc_of (d : nat) (p : panicval) : option (value * site) :=
   match p with
-  | PVValue v => Some (v, stack_of d v)
+  | PVValue v => Some (v, panic_stack_of d v)
   | PVExc v st => Some (v, st)
   | PVErr _ | PVForeign _ => None
   end.
